@@ -92,6 +92,26 @@ def gen_sequences(rng, tier):
             n = rng.choice([0, 1, 3, 5, 7, 8, 8, 16, 16, 24, 32, rng.randrange(0, 40)])
             ops.append([k, str(n)])
         yield f"rseq {hx(buf)} {p} {sx(ops)}", "read-history"
+    # the cursor is the caller's to move, backwards too: reads far apart in a longer buffer with jumps between them
+    for _ in range(60 if tier == "quick" else 6000):
+        ln = rng.randrange(24, 90)
+        buf = rng.randbytes(ln)
+        ops = []
+        for _ in range(rng.randrange(3, 9)):
+            if rng.random() < 0.5:
+                ops.append(["p", str(rng.randrange(0, 8 * ln - 40))])
+            n = rng.choice([1, 3, 8, 12, 16, 24, 32, 33])
+            ops.append([rng.choice("ib"), str(n)])
+        yield f"rseq {hx(buf)} {rng.randrange(0, 8 * ln - 400 if ln > 60 else 8)} {sx(ops)}", "read-history-jumps"
+    # very wide reads (tens of thousands of bits) at unaligned cursors: the bytes read are the bits addressed
+    for _ in range(4 if tier == "quick" else 60):
+        ln = rng.choice([2600, 4096, 9000])
+        buf = rng.randbytes(ln)
+        p = rng.randrange(1, 64)
+        n = rng.choice([14300, 16001, 20000, 8 * ln - p - rng.randrange(0, 9)])
+        n = min(n, 8 * ln - p)
+        yield f"rbytes {hx(buf)} {p} {n}", "very-wide"
+        yield f"rint {hx(buf)} {p - p % 8} {n - n % 8}", "very-wide"
 
 
 def same(r, buf):
@@ -107,7 +127,9 @@ def impl_seq(line):
     out = "seq"
     for k, n in t[3]:
         try:
-            if k == "i":
+            if k == "p":
+                r.pos = int(n)
+            elif k == "i":
                 out += f" {r.read_as_int(int(n))}"
             else:
                 out += f" {hx(bytes(r.read_as_bytes(int(n))))}"
@@ -123,6 +145,9 @@ def oracle_seq(line, out):
     want = "seq"
     for k, n in t[3]:
         n = int(n)
+        if k == "p":
+            p = n
+            continue
         if p + n > len(bits):
             return None if k == "i" else (out == want + " err")    # only bytes reads are guarded; int over-reads are C14's
         v = int(bits[p:p + n] or "0", 2)
@@ -143,10 +168,17 @@ def impl(line):
         return "n/a" if f is None else f"ok {f(buf, p, n)}"
     r = packets.RawPacketData(buf)
     r.pos = p
+    import sys
+    if n > 4000:
+        # the library call runs under the interpreter's default limit on int -> str conversion (which the harness lifts
+        # for its own printing): a read must not depend on rendering the number it extracts
+        sys.set_int_max_str_digits(4300)
+    try:
+        v = r.read_as_int(n) if op == "rint" else r.read_as_bytes(n)
+    finally:
+        sys.set_int_max_str_digits(0)
     if op == "rint":
-        v = r.read_as_int(n)
         return f"ok {v} {r.pos} {same(r, buf)}"
-    v = r.read_as_bytes(n)
     assert type(v) in (bytes, packets.RawPacketData)
     return f"ok {hx(bytes(v))} {r.pos} {same(r, buf)}"
 
